@@ -322,7 +322,16 @@ package q
 //@   oncall strconv.ParseFloat#1 do okL = isnil(result1); vL = result0
 //@   oncall strconv.ParseFloat#2 check right-text: arg0 == right
 //@   oncall strconv.ParseFloat#2 do okR = isnil(result1); vR = result0
-//@   ensures both-numbers: result2 == (okL && okR)
+//@   ghost nanL bool = false
+//@   ghost nanR bool = false
+//@   oncall math.IsNaN#1 check left-value: arg0 == vL
+//@   oncall math.IsNaN#1 do nanL = result
+//@   oncall math.IsNaN#2 check right-value: arg0 == vR
+//@   oncall math.IsNaN#2 do nanR = result
+// (float64 is modelled as Real, which has no NaN; math.IsNaN is therefore an
+// abstract test and the clause below says it is consulted for both values)
+//@   ensures never-nan: implies(result2, !nanL && !nanR)
+//@   ensures both-numbers: result2 == (okL && okR && !nanL && !nanR)
 //@   ensures values: implies(result2, result0 == vL && result1 == vR)
 //@   assigns nothing
 //@ func binaryStrings
